@@ -280,6 +280,22 @@ class FromFnIt(S.It):
         return o[3][0] if o[2] == "Some" else None
 
 
+def m_reduce(it, args, callee, depth):
+    itr = S.as_iter(it, args[0])
+    acc = itr.next(it, depth)
+    if acc is None:
+        return A.NONE
+    n = 0
+    while True:
+        x = itr.next(it, depth)
+        if x is None:
+            return A.some(acc)
+        acc = it.invoke(args[1], [acc, x], depth)
+        n += 1
+        if n > 4096:
+            raise A.Undecided("reduce over too long an iterator")
+
+
 def m_iter_from_fn(it, args, callee, depth):
     return ("iter", FromFnIt(args[0]))
 
@@ -415,6 +431,7 @@ MODELS = {
     "$slice::<impl [T]>::chunks": m_windows(True),
     "$slice::<impl [T]>::chunks_exact": m_windows(True),
     "Iterator::skip": m_skip,
+    "Iterator::reduce": m_reduce,
     "$iter::sources::from_fn::from_fn": m_iter_from_fn,
     "$core::iter::from_fn": m_iter_from_fn,
     "$iter::sources::repeat_with::repeat_with": m_repeat_with,
